@@ -24,7 +24,10 @@
       `fixes/C13-pole-winding.patch`); the REPAIRED flag is the winding of the boundary about the
       polar axis: for every closed ring off the axis the winding is an integer multiple of 2π
       (`winding_multiple_of_two_pi`), the flag is raised exactly when that integer is non-zero and
-      then for exactly one pole (`pole_flag_iff_winding`);
+      then for exactly one pole (`pole_flag_iff_winding`); WHICH pole cannot be read off the corners'
+      mean latitude: a convex triangle inside a hemisphere with the north pole strictly inside has a
+      negative summed z (`meanz_rule_wrong`, over ℚ), while winding sign × orientation answers
+      correctly on that very face (`winding_rule_right`);
   §C  the arc (ordered field / ℝ): `circle_apex_bound` (Cauchy–Schwarz), the code's `d_a_max` is
       THE stationary parameter (`extreme_param_stationary`), the chord point at `d_a_max` attains
       the great circle's bound (`apex_attains_bound`), therefore dominates every point of the
@@ -1674,5 +1677,107 @@ example : ∃ k : ℤ, winding (realFn id)
     rcases hv with rfl | rfl | rfl | rfl <;> simp [hz, Complex.ext_iff])
 
 end windingThm
+
+/-! ### which pole: the corners' mean latitude is NOT a criterion -/
+/-- a convex triangle inside a hemisphere (rational unit vectors): one corner at 79.6°N on the
+    meridian 180°, two corners at 33.1°S on the meridians ∓12.5° -/
+def bigA : V3 ℚ := ⟨-11/61, 0, 60/61⟩
+def bigB : V3 ℚ := ⟨9/11, -2/11, -6/11⟩
+def bigC : V3 ℚ := ⟨9/11, 2/11, -6/11⟩
+
+/-- the rule "the enclosed pole is the one on the side of the corners' summed z" -/
+def meanzNorth (cs : List (V3 ℚ)) : Bool := decide (0 < (cs.map (·.z)).sum)
+
+/-- the north pole is strictly left of every edge of the counter-clockwise ring -/
+def northLeftOfAll (cs : List (V3 ℚ)) : Bool :=
+  (Oracle.cyc cs).all fun e => decide (0 < (cross e.1 e.2).z)
+
+theorem meanz_rule_wrong :
+    -- unit vectors, every edge shorter than half a turn, all inside the hemisphere of (1,0,1)
+    (dot bigA bigA = 1 ∧ dot bigB bigB = 1 ∧ dot bigC bigC = 1) ∧
+    (-1 < dot bigA bigB ∧ -1 < dot bigB bigC ∧ -1 < dot bigC bigA) ∧
+    (0 < dot bigA ⟨1, 0, 1⟩ ∧ 0 < dot bigB ⟨1, 0, 1⟩ ∧ 0 < dot bigC ⟨1, 0, 1⟩) ∧
+    -- the north pole is strictly inside, the south pole is not
+    northLeftOfAll [bigA, bigB, bigC] = true ∧
+    -- yet the corners' summed z is negative: the mean-z rule answers "south"
+    meanzNorth [bigA, bigB, bigC] = false := by
+  refine ⟨⟨?_, ?_, ?_⟩, ⟨?_, ?_, ?_⟩, ⟨?_, ?_, ?_⟩, ?_, ?_⟩ <;>
+    simp only [dot, cross, bigA, bigB, bigC, northLeftOfAll, meanzNorth, Oracle.cyc] <;> norm_num
+
+
+section meanzReal
+
+noncomputable def rA : V3 ℝ := ⟨-11/61, 0, 60/61⟩
+noncomputable def rB : V3 ℝ := ⟨9/11, -2/11, -6/11⟩
+noncomputable def rC : V3 ℝ := ⟨9/11, 2/11, -6/11⟩
+
+theorem arg_pos_of_im_pos (z : ℂ) (h : 0 < z.im) : 0 < Complex.arg z := by
+  have h0 : 0 ≤ Complex.arg z := Complex.arg_nonneg_iff.mpr h.le
+  rcases lt_or_eq_of_le h0 with h1 | h1
+  · exact h1
+  · exfalso
+    have := (Complex.arg_eq_zero_iff.mp h1.symm).2
+    linarith
+
+theorem lonIncrement_pos (f : ℝ → ℝ) (a b : V3 ℝ) (h : 0 < a.x * b.y - a.y * b.x) :
+    0 < lonIncrement (realFn f) a b :=
+  arg_pos_of_im_pos ⟨a.x * b.x + a.y * b.y, a.x * b.y - a.y * b.x⟩ h
+
+theorem hz_big : ∀ v ∈ [rA, rB, rC], hz v ≠ 0 := by
+  intro v hv
+  simp only [List.mem_cons, List.not_mem_nil, or_false] at hv
+  rcases hv with rfl | rfl | rfl <;> simp [hz, rA, rB, rC, Complex.ext_iff]
+
+theorem notouch_big (f : ℝ → ℝ) (north : Bool) :
+    touchesPole (realFn f) north (ringEdges [rA, rB, rC]) = false := by
+  have e0 : ∀ x : ℝ, (realFn f).abs x = |x| := fun _ => rfl
+  cases north <;>
+    simp [touchesPole, ringEdges, Oracle.cyc, onGca, realFn, poleVec, dot, cross, rA, rB, rC] <;> norm_num
+
+/-- **winding_rule_right**: on the face of `meanz_rule_wrong` (same corners, over ℝ) the repaired
+    `_pole_point_inside_polygon` — winding sign × orientation — answers "north: yes, south: no". -/
+theorem winding_rule_right (f : ℝ → ℝ) :
+    poleInsideWinding (realFn f) true (ringEdges [rA, rB, rC]) = true ∧
+    poleInsideWinding (realFn f) false (ringEdges [rA, rB, rC]) = false := by
+  obtain ⟨k, hk, hiff, hex⟩ := pole_flag_iff_winding f rA [rB, rC] hz_big (notouch_big f)
+  have hA := onAxis_false f rA (hz_big rA (by simp))
+  have hB := onAxis_false f rB (hz_big rB (by simp))
+  have hC := onAxis_false f rC (hz_big rC (by simp))
+  have hw : winding (realFn f) (ringEdges [rA, rB, rC])
+      = 0 + lonIncrement (realFn f) rA rB + lonIncrement (realFn f) rB rC + lonIncrement (realFn f) rC rA := by
+    simp [winding, ringEdges, Oracle.cyc, hA, hB, hC]
+  have hpos : 0 < winding (realFn f) (ringEdges [rA, rB, rC]) := by
+    rw [hw]
+    have h1 := lonIncrement_pos f rA rB (by simp [rA, rB]; norm_num)
+    have h2 := lonIncrement_pos f rB rC (by simp [rB, rC]; norm_num)
+    have h3 := lonIncrement_pos f rC rA (by simp [rC, rA]; norm_num)
+    linarith
+  have hccw : isCcw (ringEdges [rA, rB, rC]) = true := by
+    simp [isCcw, ringEdges, Oracle.cyc, vadd, cross, dot, rA, rB, rC]; norm_num
+  have hpi := Real.pi_pos
+  have hk1 : (1 : ℝ) ≤ k := by
+    have : (0 : ℝ) < k := by
+      rw [hk] at hpos
+      by_contra hc
+      have : (k : ℝ) * (2 * Real.pi) ≤ 0 :=
+        mul_nonpos_of_nonpos_of_nonneg (not_lt.mp hc) (by positivity)
+      linarith
+    have : (0 : ℤ) < k := by exact_mod_cast this
+    exact_mod_cast this
+  have hnorth : poleInsideWinding (realFn f) true (ringEdges [rA, rB, rC]) = true := by
+    unfold poleInsideWinding
+    rw [notouch_big f true]
+    have ea : (realFn f).abs (winding (realFn f) (ringEdges [rA, rB, rC]))
+        = |winding (realFn f) (ringEdges [rA, rB, rC])| := rfl
+    have hge : ¬ |winding (realFn f) (ringEdges [rA, rB, rC])| < Real.pi := by
+      rw [abs_of_pos hpos, hk]; nlinarith
+    simp only [Bool.false_eq_true, if_false, ea]
+    rw [if_neg (by exact hge), hccw]
+    simp [hpos]
+  refine ⟨hnorth, ?_⟩
+  by_contra hs
+  exact hex ⟨hnorth, by simpa using hs⟩
+
+end meanzReal
 
 end UxVerif.C13
